@@ -89,4 +89,14 @@ def addTruncTP (m : Mode) (p : TP) (t : Trunc) : Option TP :=
   | none => addTruncated m p t
   | some z => (toTimeZone m p z).bind fun q => (addTruncated m q t).bind fun r => toTimeZone m r p.tz
 
+/-- `if hour_of_day == CALENDAR.HOURS_IN_DAY: hour_of_day = 0` at the head of `add_truncated` (repair F21: an hour
+    target of 24 is the end of the day, read as 00:00 of the next day like 24:00 everywhere else). -/
+def Trunc.norm24 (t : Trunc) : Trunc := if t.hh = some 24 then { t with hh := some 0 } else t
+
+/-- `TimePoint.add_truncated(**props)` as repaired. -/
+def addTruncated24 (m : Mode) (p : TP) (t : Trunc) : Option TP := addTruncated m p t.norm24
+
+/-- `truncated + full` as repaired (the normalisation does not touch the zone). -/
+def addTruncTP24 (m : Mode) (p : TP) (t : Trunc) : Option TP := addTruncTP m p t.norm24
+
 end IsoDT.Model
